@@ -59,7 +59,9 @@ Print Assumptions serial_monitor_sound.
 
 (* COMPLETENESS of the whole monitor.  For EVERY timeout and EVERY event list (any producers, waits,
    failures, shutdown, foreign halves), the trace monitor Case_C08.ok — serial part AND the timed walk
-   (not-early, exact clean burst, forced-flush bookkeeping, tie accounting) — accepts the model's own
+   (not-early, exact clean burst, not-late: a call that is not a forced flush starts no later than [timeout]
+   after the later of the latest submission and the end of the previous call — so the retry of kept arguments
+   after any number of failed calls comes after ONE timeout —, forced-flush bookkeeping, tie accounting) — accepts the model's own
    trace.  So on any case where the implementation's trace equals the model's trace the monitor cannot
    raise an alarm: a rejection always means that the implementation differs from the model. *)
 Theorem monitor_complete :
@@ -209,3 +211,21 @@ Example serial_rejects :
   serial false 0 [FnStart 1 [1] 8%N] = None /\
   serial false 0 [FnStart 0 [1] 8%N; FnEnd 0 true [1]; FnStart 1 [2] 9%N] = Some (true, 2).
 Proof. vm_compute. repeat split; reflexivity. Qed.
+
+(* the quiet period stays [timeout] after failed calls: kept arguments are offered again one timeout after
+   each failure, and a burst arriving after two failures is delivered one timeout after its last arrival *)
+Example retry_after_failures :
+  trace 8 [Submit 0 (Plain 1); Advance 8; FnFail; Advance 8; FnFail; Advance 3; Submit 1 (Plain 2); Advance 8; FnOk] =
+  [[]; [FnStart 0 [1] 8%N]; [FnEnd 0 false [1]]; [FnStart 1 [1] 16%N]; [FnEnd 1 false [1]]; [];
+   []; [FnStart 2 [1; 2] 27%N]; [FnEnd 2 true [1; 2]]].
+Proof. vm_compute. reflexivity. Qed.
+
+(* ... and the walk part of the monitor rejects a retry that backs off (2 x timeout after the second failure),
+   while it accepts the retry after one timeout *)
+Example late_retry_rejected :
+  let evs := [Submit 0 (Plain 1); Advance 8; FnFail; Advance 8; FnFail; Advance 8; Advance 8; FnOk] in
+  ok_walk (Case 8 evs [[]; [FnStart 0 [1] 8%N]; [FnEnd 0 false [1]]; [FnStart 1 [1] 16%N]; [FnEnd 1 false [1]];
+                       []; [FnStart 2 [1] 32%N]; [FnEnd 2 true [1]]]) = false /\
+  ok_walk (Case 8 evs [[]; [FnStart 0 [1] 8%N]; [FnEnd 0 false [1]]; [FnStart 1 [1] 16%N]; [FnEnd 1 false [1]];
+                       [FnStart 2 [1] 24%N]; []; [FnEnd 2 true [1]]]) = true.
+Proof. vm_compute. split; reflexivity. Qed.
